@@ -983,6 +983,18 @@ def pair_component(env, rhs_node, i, depth):
     """component i of the pair the expression `rhs_node` produces: through a pair-returning helper of the header, else
     .first / .second of the value"""
     r = strip(rhs_node)
+    while r.kind in ('ExprWithCleanups', 'MaterializeTemporaryExpr', 'CXXBindTemporaryExpr', 'CXXFunctionalCastExpr') and len(r.kids) == 1:
+        r = strip(r.kids[0])
+    if r.kind == 'ConditionalOperator':
+        a = pair_component(env, r.kids[1], i, depth)
+        b = pair_component(env, r.kids[2], i, depth)
+        if a is None or b is None:
+            return None
+        return mk_cond(term(r.kids[0], env, depth), a, b)
+    if r.kind == 'CallExpr' and (strip(r.kids[0]).ref or '') in ('make_pair', 'make_tuple', 'tie', 'forward_as_tuple') and len(r.kids) == 3:
+        return term(r.kids[1 + i], env, depth)
+    if r.kind in ('CXXConstructExpr', 'CXXTemporaryObjectExpr', 'InitListExpr') and len(r.kids) == 2 and ('pair' in (r.type or '') or 'tuple' in (r.type or '')):
+        return term(r.kids[i], env, depth)
     if r.kind == 'CallExpr':
         name = strip(r.kids[0]).ref
         fn_node = getattr(env, 'functions', {}).get(name)
